@@ -306,15 +306,24 @@ def whole_rhs_rule(ctx, rule):
     rep.analysed(fn)
     bodies = list(F.with_closures(fn))
     dbg = [t for b in bodies for bi, t in b.calls() if (callee_def(t) or "").endswith(("::new_debug", "::new_debug_noop")) or ((callee_def(t) or "") == "std::fmt::Debug::fmt")]
-    plain = [bi for bi, t in fn.calls() if (t["callee"].get("name") in ("write_str", "pad") or (callee_def(t) == "std::fmt::Display::fmt" and any(k in (t["callee"].get("inst") or "") for k in ("<str as", "<std::string::String as"))))
-             and any(d[0] == "param" and d[1] == 1 and "value" in p for a in t["args"] for d, p in kind_deep_(fn, a))]
+    def is_plain(b_, t):
+        return (t["callee"].get("name") in ("write_str", "pad") or (callee_def(t) == "std::fmt::Display::fmt" and any(k in (t["callee"].get("inst") or "") for k in ("<str as", "<std::string::String as")))) \
+            and any(d[0] == "param" and d[1] == 1 and "value" in p for a in t["args"] for d, p in kind_deep_(b_, a))
+    plain = [bi for bi, t in fn.calls() if is_plain(fn, t)]
+    plain_in_closure = [b_ for b_ in bodies if b_ is not fn for bi, t in b_.calls() if is_plain(b_, t)]
     ok, why = True, ""
     if dbg:
         ok, why = False, "the string constant is rendered with Debug formatting: backslashes, quotes and control characters come out escaped, so the report no longer shows the string the program assigns"
-    elif len(plain) < 1:
+    elif len(plain) < 1 and not plain_in_closure:
         ok, why = False, "self.value is not written to the formatter as plain text"
-    elif common.path_to_return_avoiding(fn, plain[:1]):
+    elif plain and common.path_to_return_avoiding(fn, plain[:1]):
         ok, why = False, "on some path the string is not written as plain text"
+    elif not plain:
+        # written inside a closure chained on the earlier write's result (`.and_then(|()| f.write_str(..))`): it runs unless that write failed
+        from ..guards import _closure_use
+        u = _closure_use(F, plain_in_closure[0])
+        if not u or u[2]["callee"].get("name") not in ("and_then", "map", "and"):
+            ok, why = False, "the string is written inside a closure that is not chained on the preceding write"
     rep.ob(rule, "string-constant-text-is-the-string", ok, why, fn.loc(), how="write_str(self.value) between the quotes, no Debug rendering")
 
 
